@@ -634,7 +634,18 @@ fn run_job(spec: &Value, cat: &BTreeSet<u16>, w: &mut WorkerCtx, hasher: &mut Di
 			let cells = c07::cells(spec["family"].as_str().unwrap());
 			for i in spec["lo"].as_u64().unwrap() as usize..spec["hi"].as_u64().unwrap() as usize
 			{
-				each(single("type matrix", cells[i].text.clone()), w);
+				let mut input = single("type matrix", cells[i].text.clone());
+				// an ill-typed cell with a single offending operand is a marker program: a diagnostic
+				// with one of the cell's documented codes must cover that operand
+				if let (Some(false), Some(offender)) = (cells[i].expect, &cells[i].offender)
+				{
+					if !cells[i].codes.is_empty() && cells[i].text.matches(offender.as_str()).count() >= 1
+					{
+						input.class = format!("marker:type matrix:{}", cells[i].family);
+						input.marker = Some((cells[i].codes.clone(), offender.clone(), None));
+					}
+				}
+				each(input, w);
 			}
 		}
 		"matrix8" =>
@@ -1163,7 +1174,8 @@ fn judge_input(input: &Input, cat: &BTreeSet<u16>, w: &mut WorkerCtx, hasher: &m
 		}
 		if let Some((codes, want, _)) = &input.marker
 		{
-			if input.class != "marker:type term in a position" && !all.iter().any(|d| codes.contains(&d.code))
+			// (whether an ill-typed cell of the type matrix is rejected, and with which code, is judged by C07)
+			if input.class != "marker:type term in a position" && !input.class.starts_with("marker:type matrix") && !all.iter().any(|d| codes.contains(&d.code))
 			{
 				let got: Vec<u16> = all.iter().map(|d| d.code).collect();
 				w.result.violation(&format!("expected-diagnostic-missing:{}", input.class), size, &desc, || format!("{}: expected one of {codes:?} covering {want:?}, reported {got:?} ({})\n{}", input.class, LAYOUTS[layout], show()));
